@@ -68,6 +68,7 @@ func c36ErrKind(err error) string {
 type c36Opt struct {
 	bigPrefix bool // additionally run the appended variants behind a 0x3FFF-byte prefix
 	selfCheck bool // check that the reference decoder inverts the reference encoder on this message
+	chain     bool // chain part: round-trip failure signatures name the longest pointer chain on the wire
 }
 
 func c36Short(b []byte) []byte {
@@ -107,14 +108,21 @@ func c36Check(w *vx.W, d c36Msg, o c36Opt) (ptrs int, ok bool) {
 			}
 		}
 		wire = c36Exact(wire)
+		sfx := ""
+		if o.chain {
+			// The abstract trigger in this part is the length of the longest
+			// pointer chain the packer emitted (measured on the wire by the
+			// reference decoder, which has no chain limit; -1: not decodable).
+			sfx = fmt.Sprintf("/chain-of-%d-pointers", c36RefMaxChain(wire))
+		}
 		var u Message
 		if err := u.Unpack(wire); err != nil {
-			w.Failf("C36/"+via+"/unpack-error", "%s produced %x; Unpack: %v\nmessage:\n%s", via, c36Short(wire), err, want)
+			w.Failf("C36/"+via+"/unpack-error"+sfx, "%s produced %x; Unpack: %v\nmessage:\n%s", via, c36Short(wire), err, want)
 			return 0, false
 		}
 		got, glens := c36Dump(&u, true)
 		if got != want {
-			w.Failf("C36/"+via+"/unpack-differs/"+c36DiffKind(want, got), "%s then Unpack changed the message (wire %x)\nwant:\n%s\ngot:\n%s", via, c36Short(wire), want, got)
+			w.Failf("C36/"+via+"/unpack-differs/"+c36DiffKind(want, got)+sfx, "%s then Unpack changed the message (wire %x)\nwant:\n%s\ngot:\n%s", via, c36Short(wire), want, got)
 			return 0, false
 		}
 		rd, rlens, p, err := c36RefDecode(wire)
@@ -303,7 +311,7 @@ func c36WireLen(n int) int {
 
 func TestVerif_C36(t *testing.T) {
 	vx.Run(t, "C36", func(c *vx.Ctx) {
-		c.Rule("cases are message descriptors over a 15-name alphabet (root, shared suffixes in both orders, case variant, 63-byte label, 254-byte name and its tail, arbitrary bytes) and one or more instances of every supported body type (A, AAAA, NS, CNAME, SOA, PTR, MX, TXT, SRV, SVCB, HTTPS, OPT, unknown). parts: header = all 128 flag combinations x OpCode{0,1,2,15} x RCode{0,1,5,15} x ID{0,0xffff} (thorough {0,1,0x8000,0xffff}) x {empty, one question}; question = every name x type/class in {0,1,255,65535}^2 and every ordered pair of names; single = every owner name x every body (every name in every RDATA name slot, SOA: every pair) x every resource section x 2 class/TTL values (quick: the two values alternate); seq = every sequence of up to 2 (thorough 3) entries from 8 question entries and 35 resource entries covering every kind of name slot (questions first, every non-decreasing assignment of resource entries to the three sections); seq-reduced = every such sequence of exactly 3 (thorough 4) entries over a reduced alphabet of 4 question and 16 resource entries; full = two entries in every section for every ordered pair of the 35 resource entries; boundary = a name placed at every offset 0x3ffc..0x4003 (the 14-bit pointer limit) and reused afterwards, also behind a 0x3fff-byte AppendPack/Builder prefix. Each case runs Pack, AppendPack(prefix), Builder without and with compression (fresh / non-empty buffer); non-trivial = all variants were produced, unpacked and compared with the original and with an independent reference encoder/decoder")
+		c.Rule("cases are message descriptors over a 15-name alphabet (root, shared suffixes in both orders, case variant, 63-byte label, 254-byte name and its tail, arbitrary bytes) and one or more instances of every supported body type (A, AAAA, NS, CNAME, SOA, PTR, MX, TXT, SRV, SVCB, HTTPS, OPT, unknown). parts: header = all 128 flag combinations x OpCode{0,1,2,15} x RCode{0,1,5,15} x ID{0,0xffff} (thorough {0,1,0x8000,0xffff}) x {empty, one question}; question = every name x type/class in {0,1,255,65535}^2 and every ordered pair of names; single = every owner name x every body (every name in every RDATA name slot, SOA: every pair) x every resource section x 2 class/TTL values (quick: the two values alternate); seq = every sequence of up to 2 (thorough 3) entries from 8 question entries and 35 resource entries covering every kind of name slot (questions first, every non-decreasing assignment of resource entries to the three sections); seq-reduced = every such sequence of exactly 3 (thorough 4) entries over a reduced alphabet of 4 question and 16 resource entries; full = two entries in every section for every ordered pair of the 35 resource entries; boundary = a name placed at every offset 0x3ffc..0x4003 (the 14-bit pointer limit) and reused afterwards, also behind a 0x3fff-byte AppendPack/Builder prefix; chain = for k = 1..13, k names each extending the previous one by one leading label (l0., l1.l0., ...) in increasing order, so that a compressing packer emits a chain of k-1 pointers for the last name (both sides of any decoder chain limit the packer can reach), in 10 layouts: all question names, all owner names in each single section, owners spread over question and the three sections, all RDATA names of NS / MX / PTR records, owner and RDATA name alternating (CNAME), owner and two RDATA names (SOA); there non-trivial additionally requires that the reference decoder measured a chain of exactly k-1 pointers in the Pack output, and round-trip failures carry the measured chain length in the signature. Each case runs Pack, AppendPack(prefix), Builder without and with compression (fresh / non-empty buffer); non-trivial = all variants were produced, unpacked and compared with the original and with an independent reference encoder/decoder")
 		c.Assume("well-formed means: canonical names (non-empty labels <= 63 bytes without '.', trailing dot, <= 254 bytes presentation / 255 wire), OpCode and RCode < 16, TXT with at least one string, SVCB keys strictly increasing, unknown types that are not one of the supported types; semantic equality treats nil and empty slices as equal and ignores Name.Data beyond Length")
 		c.Assume("beyond the statement, the uncompressed Builder output and pointer-free Pack output are required to be byte-identical to a reference RFC 1035 encoder, every wire image must be accepted by a strict reference decoder (pointers strictly backwards, RDATA fills RDLENGTH), and Pack must leave Header.Type/Length describing the wire (documented on ResourceHeader)")
 
@@ -489,6 +497,108 @@ func TestVerif_C36(t *testing.T) {
 				}
 			}
 		}, check(c36Opt{}))
+
+			// --- chains of compression pointers
+		// k names, each extending the previous one by one leading label, in
+		// increasing order: the packer encodes name i as one label and a
+		// pointer to name i-1, so the last name decodes through k-1 pointers.
+		const c36MaxChainNames = 13
+		chainCheck := func(w *vx.W, d c36Msg) {
+			if _, ok := c36Check(w, d, c36Opt{selfCheck: true, chain: true}); !ok {
+				return
+			}
+			m := d.message()
+			packed, err := m.Pack()
+			if err != nil {
+				return
+			}
+			names := len(d.Q)
+			for _, r := range d.R {
+				names++
+				switch r.B.K {
+				case "A":
+				case "SOA":
+					names += 2
+				default:
+					names++
+				}
+				if r.Owner == 0 {
+					names--
+				}
+			}
+			hops := c36RefMaxChain(packed)
+			if hops == names-1 {
+				w.Nontrivial() // the packer really emitted the full chain and every decoder followed it
+			}
+			w.Outcome(fmt.Sprintf("chain-of-%d-pointers", hops))
+		}
+		vx.Enumerate(c, "chain", vx.Opts{}, func(yield func(c36Msg) bool) {
+			for k := 1; k <= c36MaxChainNames; k++ {
+				ch := func(i int) int { return c36ChainBase + i }
+				// every name a question name
+				d := c36Msg{H: h1}
+				for i := 0; i < k; i++ {
+					d.Q = append(d.Q, c36Q{N: ch(i), T: 1, C: 1})
+				}
+				if !yield(d) {
+					return
+				}
+				// every name an owner name, all in one section (each of the three)
+				for sec := 1; sec <= 3; sec++ {
+					d = c36Msg{H: h2}
+					for i := 0; i < k; i++ {
+						d.R = append(d.R, c36R{Sec: sec, Owner: ch(i), Class: 1, TTL: 60, B: c36B{K: "A", V: i % 2}})
+					}
+					if !yield(d) {
+						return
+					}
+				}
+				// owner names, spread over question and the three sections
+				d = c36Msg{H: h1, Q: []c36Q{{N: ch(0), T: 1, C: 1}}}
+				for i := 1; i < k; i++ {
+					d.R = append(d.R, c36R{Sec: 1 + (i-1)*3/(k-1), Owner: ch(i), Class: 1, TTL: 60, B: c36B{K: "A"}})
+				}
+				if !yield(d) {
+					return
+				}
+				// every name a compressible RDATA name (owner is the root)
+				for _, kind := range []string{"NS", "MX", "PTR"} {
+					d = c36Msg{H: h2}
+					for i := 0; i < k; i++ {
+						d.R = append(d.R, c36R{Sec: 2, Owner: 0, Class: 1, TTL: 0, B: c36B{K: kind, N1: ch(i), V: 1}})
+					}
+					if !yield(d) {
+						return
+					}
+				}
+				// alternately owner and RDATA name (CNAME / SOA with two RDATA names)
+				d = c36Msg{H: h1}
+				for i := 0; i < k; i += 2 {
+					if i+1 < k {
+						d.R = append(d.R, c36R{Sec: 1, Owner: ch(i), Class: 1, TTL: 1, B: c36B{K: "CNAME", N1: ch(i + 1)}})
+					} else {
+						d.R = append(d.R, c36R{Sec: 1, Owner: ch(i), Class: 1, TTL: 1, B: c36B{K: "A"}})
+					}
+				}
+				if !yield(d) {
+					return
+				}
+				d = c36Msg{H: h2}
+				for i := 0; i < k; i += 3 {
+					switch {
+					case i+2 < k:
+						d.R = append(d.R, c36R{Sec: 3, Owner: ch(i), Class: 1, TTL: 2, B: c36B{K: "SOA", N1: ch(i + 1), N2: ch(i + 2), V: 1}})
+					case i+1 < k:
+						d.R = append(d.R, c36R{Sec: 3, Owner: ch(i), Class: 1, TTL: 2, B: c36B{K: "PTR", N1: ch(i + 1)}})
+					default:
+						d.R = append(d.R, c36R{Sec: 3, Owner: ch(i), Class: 1, TTL: 2, B: c36B{K: "A"}})
+					}
+				}
+				if !yield(d) {
+					return
+				}
+			}
+		}, chainCheck)
 
 		// --- 14-bit pointer limit
 		vx.Enumerate(c, "boundary", vx.Opts{}, func(yield func(c36Msg) bool) {
